@@ -124,6 +124,14 @@ STR_METHODS = ("format", "lower", "upper", "strip", "lstrip", "rstrip", "startsw
                "split", "join", "replace", "rpartition", "partition", "encode", "decode", "find", "count")
 
 
+# values of the standard library whose type is fixed (one line of reason each)
+EXT_VALUES = {
+    "ext:sys.version_info": AV(["tuple"], nonempty=True),      # a named tuple of five fields
+    "ext:sys.version": AV(["str"], nonempty=True),
+    "ext:sys.maxsize": AV(["int"]),
+}
+
+
 class Summary(object):
     def __init__(self):
         self.ret = None
@@ -842,6 +850,8 @@ class _Run(object):
             return T("func")
         if r in self.prog.classes:
             return T("class")
+        if r in EXT_VALUES:
+            return EXT_VALUES[r]
         if r.startswith("ext:"):
             return ANY
         mod, _, name = r.partition(".")
